@@ -25,6 +25,45 @@ class Facts:
     def all_fns(self):
         return self.d["fns"]
 
+    def implementors(self, traits):
+        """in-crate self types that have an impl of every trait in `traits`"""
+        sets = []
+        for t in traits:
+            sets.append({i["self_adt"] or i["self"] for i in self.d["impls"] if i.get("trait") == t})
+        if not sets:
+            return set()
+        r = sets[0]
+        for x in sets[1:]:
+            r = r & x
+        return r
+
+    def impl_candidates(self, caller, callee):
+        """For a trait-method call made on a type parameter: the in-crate impl methods it can dispatch to, i.e. the
+        (trait, method) impls whose Self type satisfies all non-marker bounds the caller places on that parameter."""
+        tm = callee.get("trait_method")
+        if not tm or callee.get("resolved") is not None:
+            return []
+        gen = callee.get("generics") or []
+        if not gen:
+            return []
+        pname = gen[0]
+        bounds = [b["trait"] for b in caller.get("bounds", []) if b["param"] == pname and "::marker::" not in b["trait"]]
+        if not bounds:
+            # closures inherit the bounds of the enclosing function (exported by the driver); unknown parameter otherwise
+            return None
+        cands = self.implementors(bounds)
+        out = []
+        for i in self.d["impls"]:
+            if i.get("trait") != tm["trait"]:
+                continue
+            if (i["self_adt"] or i["self"]) not in cands:
+                continue
+            for it in i["items"]:
+                if it["name"] == tm["name"]:
+                    for fn in self.fns.get(it["qual"], []):
+                        out.append(fn)
+        return out
+
     def __getitem__(self, k):
         return self.d[k]
 
